@@ -70,7 +70,10 @@ ASSUMPTIONS = [
 ]
 REDUCE_ROOTS = (("ops",),)
 
-NAMES = ["uuid", "date-time", "fmt-a", "fmt_b", "", "with space", "émoji-✓", "sim-unregistered", "x", "UUID"]
+NAMES = [
+    "uuid", "date-time", "fmt-a", "fmt_b", "", "with space", "émoji-✓", "sim-unregistered", "x", "UUID",
+    "{", "{}", "uri-template:{id}", "%s", "a\nb", "0",
+]
 KINDS = ["String", "Element", "Array", "Prop", "AnyOfNull", "Validator", "SavedValidators"]
 LEAP_SECOND_DAYS = [
     (1972, 6, 30), (1972, 12, 31), (1990, 12, 31), (1998, 12, 31),
